@@ -75,6 +75,8 @@ class Poly:
         return None
 
     def inverse(self):
+        if not self.terms:
+            raise ZeroDivisionError("inverse of the zero polynomial")
         st = self.single_term()
         if st is not None:
             k, v = st
